@@ -259,6 +259,17 @@ func (r *Replica) SyncSend(ctx context.Context) error {
 	return nil
 }
 
+// SendRaw sends a push-pull request as it is and hands the response back without applying it: a
+// retransmission of a request whose original is still being handled (client-side timeout,
+// retrying proxy). The caller takes req from Pending.Req before it starts the original.
+func (r *Replica) SendRaw(ctx context.Context, req *api.PushPullChangesRequest) (*api.ChangePack, error) {
+	res, err := r.RPC.PushPullChanges(ctx, shard(connect.NewRequest(req), r.APIKey, r.DocKey.String()))
+	if err != nil {
+		return nil, err
+	}
+	return res.Msg.ChangePack, nil
+}
+
 // SyncDrop forgets the pending request and its response (response lost).
 func (r *Replica) SyncDrop() { r.Pending = nil }
 
